@@ -60,6 +60,8 @@ GROUP = [
     ["group_by", [Cn("p")]],
 ]
 GROUP_ADD = [["group_by", [b], True], ["group_by", [g], True]]
+# a second group_by without add= replaces the grouping (an overlapping and the identical column list; disjoint ones arise from the other first-level groupings)
+REGROUP = [["group_by", [g, b]], ["group_by", [g]]]
 # verbs between group_by and summarize (a filter here acts on the rows, not on the groups)
 MID = [["filter", [["ge", x, lit(1)]]]]
 SUMM = [
@@ -122,7 +124,7 @@ def alphabet(st, hist):
     if sg == "pre1":
         return GROUP + SUMM
     if sg == "grouped":
-        return GROUP_ADD + MID + SUMM
+        return GROUP_ADD + REGROUP + MID + SUMM
     if sg == "grouped2":
         return SUMM
     if sg == "mid":
